@@ -27,7 +27,7 @@ def vlq(v):
 
 
 # the pre-transpilation file's name, by line offset of the original map: one of them is hostile to String.prototype.replace patterns
-ONAME = {100: "orig.ts", 7: "pri$&ce$1$$.ts", 1000: "orig.ts", 0: "orig.ts"}
+ONAME = {100: "orig.ts", 7: "pri$&ce$1$$.ts", 1000: "/abs/src/orig.ts", 0: "orig.ts"}
 
 
 def throwing_program(rng, modified=True, chained=False, evals=False):
@@ -200,7 +200,7 @@ def run(O, P):
                 if isinstance(st, str) and st.startswith("PREPARE THREW"):
                     bad("prepareStackTrace threw: " + st[:200]); failed = True; break
                 fr = parse_frames(st) if isinstance(st, str) else [dict(f, fn=f.get("fn")) for f in (st or [])]
-                want_file = os.path.join(os.path.dirname(file), ONAME[off]) if off else file
+                want_file = (ONAME[off] if os.path.isabs(ONAME[off]) else os.path.join(os.path.dirname(file), ONAME[off])) if off else file
                 # a path and its normalised spelling name the same file
                 NP = lambda x: os.path.normpath(x) if isinstance(x, str) and x else x
                 mine = [f for f in fr if NP(f.get("file")) in (NP(file), NP(want_file))]
